@@ -54,6 +54,10 @@ def create_error(node: CallExpr) -> list[Error]:
         if any(name not in allowed_names for name in node.arg_names):
             return []
 
+        if is_makedirs and node.arg_names.count(None) > 2:
+            # Path.mkdir(mode, parents, exist_ok): a positional exist_ok cannot be carried over
+            return []  # pragma: no cover
+
         old_args.append("...")
         new_args.append("...")
 
